@@ -297,10 +297,20 @@ pub fn raw_sem(
     depth: u32,
     size: u32,
 ) -> proptest::strategy::BoxedStrategy<RawSem> {
+    raw_sem_weighted(max_vars, n_formulas, depth, size, 1)
+}
+
+pub fn raw_sem_weighted(
+    max_vars: usize,
+    n_formulas: std::ops::RangeInclusive<usize>,
+    depth: u32,
+    size: u32,
+    pattern_weight: u32,
+) -> proptest::strategy::BoxedStrategy<RawSem> {
     use proptest::prelude::*;
     (
         gen::raw_net(max_vars),
-        prop::collection::vec(gen::raw_f(depth, size), n_formulas),
+        prop::collection::vec(gen::raw_f_weighted(depth, size, pattern_weight), n_formulas),
         prop::collection::vec(gen::raw_set(), gen::LABELS.len()),
         0..3u8,
     )
